@@ -12,27 +12,30 @@ Ev == TraceLog[l]
 Is(e) == l <= N /\ Ev.run = run /\ Ev.ev = e
 Step == l' = l + 1 /\ run' = run
 
+(* the observed cache state, where the class is observable ("unk" = this class has no counter in the status reply) *)
+Seen(b) == Ev.obs = "unk" \/ (Ev.obs = "yes") = b
+
 TInit == TLCSet(42, 0) /\ Init /\ l = 1 /\ run = IF N > 0 THEN TraceLog[1].run ELSE 0
 
-TFill    == Is("Fill") /\ Fill(Ev.n) /\ Step
-TPurge   == Is("OriginPurge") /\ OriginPurge(Ev.n) /\ Step
-TSend    == Is("Send") /\ Step /\ \E t \in tasks : t.from = Ev.n /\ t.hops = Ev.hops /\ SendTo(t, Ev.to)
+TFill    == Is("Fill") /\ Fill(Ev.n, Ev.c) /\ Step
+TPurge   == Is("OriginPurge") /\ OriginPurge(Ev.n, Ev.c) /\ Step
+TSend    == Is("Send") /\ Step /\ \E t \in tasks : t.from = Ev.n /\ t.c = Ev.c /\ t.hops = Ev.hops /\ SendTo(t, Ev.to)
 TDeliver == Is("Deliver") /\ Step
-            /\ \E m \in inflight : m.to = Ev.n /\ m.from = Ev.to /\ m.hops = Ev.hops /\ Deliver(m)
-            /\ present'[Ev.n] = Ev.present /\ Ev.status = 200
-TLose    == Is("Lose") /\ Step /\ \E m \in inflight : m.to = Ev.n /\ m.from = Ev.to /\ m.hops = Ev.hops /\ Lose(m)
-TForeign == Is("Foreign") /\ Step /\ Foreign(Ev.n, Ev.hops) /\ present'[Ev.n] = Ev.present
+            /\ \E m \in inflight : m.to = Ev.n /\ m.from = Ev.to /\ m.c = Ev.c /\ m.hops = Ev.hops /\ Deliver(m)
+            /\ Seen(present'[Ev.n][Ev.c]) /\ Ev.status = 200
+TLose    == Is("Lose") /\ Step /\ \E m \in inflight : m.to = Ev.n /\ m.from = Ev.to /\ m.c = Ev.c /\ m.hops = Ev.hops /\ Lose(m)
+TForeign == Is("Foreign") /\ Step /\ Foreign(Ev.n, Ev.c, Ev.hops) /\ Seen(present'[Ev.n][Ev.c])
 (* quiescent observation point: every broadcast is over, and the node's cache state is the spec's *)
 TCheck   == Is("Check") /\ Step /\ UNCHANGED vars
             /\ \A p \in 1..npurge : Done(p)
-            /\ present[Ev.n] = Ev.present
+            /\ Seen(present[Ev.n][Ev.c])
 TSilent  == \E t \in tasks : Finish(t) /\ UNCHANGED <<l, run>>
 TReset   == /\ l <= N /\ Ev.ev = "Reset" /\ Ev.run # run
-            /\ present' = [n \in Node |-> FALSE] /\ tasks' = {} /\ inflight' = {}
+            /\ present' = [n \in Node |-> [c \in Class |-> FALSE]] /\ tasks' = {} /\ inflight' = {}
             /\ sent' = [p \in 1..MaxPurges |-> 0] /\ discards' = [p \in 1..MaxPurges |-> {}]
             /\ orig' = [p \in 1..MaxPurges |-> ""]
             /\ relays' = 0 /\ npurge' = 0 /\ nloss' = 0 /\ nfill' = 0 /\ ntask' = 0
-            /\ last' = [act |-> "Init", n |-> "", to |-> "", hops |-> 0, root |-> 0, purged |-> FALSE]
+            /\ last' = [act |-> "Init", n |-> "", to |-> "", c |-> "", hops |-> 0, root |-> 0, purged |-> FALSE]
             /\ run' = Ev.run /\ l' = l + 1
 
 TNext == TFill \/ TPurge \/ TSend \/ TDeliver \/ TLose \/ TForeign \/ TCheck \/ TSilent \/ TReset
